@@ -70,6 +70,7 @@ SIMPLER_CLASS = {
     "FalsyVertex": "Vertex",
     "SlottedVertex": "Vertex",
     "HandoverVertex": "Vertex",
+    "NestingVertex": "Vertex",
     "SubUniverse": "Universe",
     "FalsyUniverse": "Universe",
     "RenamedDirected": "DirectedEdge",
